@@ -496,3 +496,19 @@ Theorem C08_hist_example_state :
   wf_b (h_s acache ex_stA) = true.
 Proof. exact ex_stA_shape. Qed.
 Print Assumptions C08_hist_example_state.
+
+(* along a whole history (operations, collections, FURTHER reorderings, added variables, any cache
+   behaviour): a slot that no call overwrites keeps its edge and its function of the variables *)
+Theorem C08_hist_slot_stable :
+  forall (gt : ref -> ref -> bool) (C : Type) (cget : C -> N -> list ref -> option ref)
+         (cadd : C -> N -> list ref -> ref -> C), lossy cget cadd ->
+  forall cempty : C, (forall k a, cget cempty k a = None) ->
+  forall ops (st st' : hstate C), HInv C cget st -> hops_pre gt C cget cadd cempty st ops ->
+  hrun gt C cget cadd cempty st ops = Some st' ->
+  forall x e, (forall o, In o ops -> hdst o <> Some x) ->
+  hget (s_handles (h_s C st)) x = Some e ->
+  hget (s_handles (h_s C st')) x = Some e /\
+  ref_ok (h_s C st') (eref e) /\
+  forall a, bfun_of (h_s C st') (eref e) a = bfun_of (h_s C st) (eref e) a.
+Proof. exact hist_slot_stable. Qed.
+Print Assumptions C08_hist_slot_stable.
